@@ -1,25 +1,10 @@
 (* C07 over whole converter runs: what a successful conversion does to the user's sections. *)
 From QV Require Import Model.Base Generated.Tables Model.Quote Model.Unquote Model.Split Model.PortRange Model.Unit Model.Lex Model.Parser
-  Model.Path Model.Names Model.Convert Model.Process Proofs.Util Proofs.C15 Proofs.C07 Proofs.C08.
+  Model.Path Model.Names Model.Convert Model.Process Spec.Passthrough Proofs.Util Proofs.C15 Proofs.C07 Proofs.C08.
 Open Scope N_scope.
 
 (* [Ext K a b]: b extends a -- every (section, key) keeps its values, in order, as a prefix; new values appear only in [Unit] and
    [Service]; the keys K of [Service] (the settings the generator manages with set) are exempt *)
-(* the (section, key) pairs every converter may append to while resolving references ... *)
-Definition ABASE : list (str * str) :=
-  [(SEC_U, s2l "Requires"); (SEC_U, s2l "After"); (SEC_U, s2l "BindsTo"); (SEC_U, s2l "RequiresMountsFor"); (SEC_U, s2l "SourcePath")].
-(* ... and per unit type *)
-Definition ACT : list (str * str) :=
-  ABASE ++ [(SEC_S, s2l "Environment"); (SEC_S, s2l "ExecStop"); (SEC_S, s2l "ExecStopPost"); (SEC_S, s2l "ExecStart"); (SEC_S, s2l "Delegate")].
-Definition AKUBE : list (str * str) :=
-  ABASE ++ [(SEC_S, s2l "Environment"); (SEC_S, s2l "ExecStart"); (SEC_S, s2l "ExecStopPost"); (SEC_S, s2l "Type"); (SEC_S, s2l "NotifyAccess");
-            (SEC_S, s2l "WorkingDirectory")].
-Definition APOD : list (str * str) :=
-  ABASE ++ [(SEC_U, s2l "Wants"); (SEC_U, s2l "Before"); (SEC_S, s2l "ExecStart"); (SEC_S, s2l "ExecStop"); (SEC_S, s2l "ExecStopPost");
-            (SEC_S, s2l "ExecStartPre"); (SEC_S, s2l "Environment"); (SEC_S, s2l "Type"); (SEC_S, s2l "Restart"); (SEC_S, s2l "PIDFile")].
-Definition AONE : list (str * str) := ABASE ++ [(SEC_S, s2l "ExecStart")].                       (* image, network, volume *)
-Definition ABUILD : list (str * str) := ABASE ++ [(SEC_S, s2l "ExecStart"); (SEC_S, s2l "WorkingDirectory")].
-
 (* [Ext A K a b]: b extends a -- every (section, key) keeps its values, in order, as a prefix; values are appended only for the
    pairs in A; the keys K of [Service] (settings the generator manages with set, i.e. replaces the last value of) are exempt *)
 Definition Ext (A : list (str * str)) (K : list str) (a b : unit) : Prop :=
@@ -464,8 +449,6 @@ Proof.
   intros H. unfold rename_section. destruct (has_section u from); [|exact H]. apply nodup_add_entries. apply nodup_remove. exact H.
 Qed.
 
-Definition hidden (t : qtype) : list str := [type_section t; type_xsection t; SEC_Q; c_X_QUADLET_SECTION].
-
 Lemma vals_rename_own svc t sec k : ~ In sec (hidden t) -> vals (rename_own svc t) sec k = vals svc sec k.
 Proof.
   intros H. unfold vals, values_raw, rename_own. unfold hidden in H. cbn [In] in H.
@@ -888,9 +871,6 @@ Qed.
 End BuildRun.
 
 (* ---- all converters ---- *)
-Definition A_of (t : qtype) : list (str * str) :=
-  match t with TContainer => ACT | TKube => AKUBE | TPod => APOD | TBuild => ABUILD | TImage | TNetwork | TVolume => AONE end.
-
 Lemma incl_base_A t : incl ABASE (A_of t).
 Proof. destruct t; cbn [A_of]; solve_incl. Qed.
 
@@ -1069,8 +1049,6 @@ Proof.
 Qed.
 
 (* ---- the statements pinned in Properties/C07.v ---- *)
-Definition MANAGED : list str := [s2l "KillMode"; s2l "SyslogIdentifier"; s2l "Type"; s2l "NotifyAccess"; s2l "RemainAfterExit"].
-
 Section Final.
 Variables (podman : str) (exists_path : str -> bool) (kill_fixed mount_nl : bool).
 Notation conv := (convert_one podman exists_path kill_fixed mount_nl).
